@@ -186,6 +186,17 @@ def evaluate(e, val):
                 return fv(*args, **kw)
             if isinstance(x, P.Quotient):
                 return Fraction(self.ev(x.numerator)) / Fraction(self.ev(x.denominator))
+            if isinstance(x, P.Power):
+                b, ex = self.ev(x.base), self.ev(x.exponent)
+                if isinstance(ex, Fraction) and ex.denominator == 1:
+                    ex = int(ex)
+                if not isinstance(ex, int) or isinstance(ex, bool) or abs(ex) > 40:
+                    raise OverflowError("exponent outside the exactly evaluated range")
+                if isinstance(b, (int, Fraction)) and abs(b) > 10**6:
+                    raise OverflowError("base outside the exactly evaluated range")
+                if ex < 0:
+                    return Fraction(1) / (Fraction(b) ** (-ex))
+                return b ** ex
             return super().ev(x)
     store = dict(val)
     return Ev(store, {})(e)
@@ -238,7 +249,7 @@ def variables(e):
     return sorted(v), sorted(f)
 
 
-GRID = [2, 3, 5, -1, 7, 0, 1, 11]
+GRID = [2, 3, 5, -1, 1, 0, 4, -2]
 
 
 def witness(e1, e2, max_points=40):
@@ -259,10 +270,8 @@ def witness(e1, e2, max_points=40):
         try:
             v1 = evaluate(e1, val)
             v2 = evaluate(e2, val)
-        except ZeroDivisionError:
-            continue
-        except Exception as ex:
-            return {"valuation": val, "error": "%s: %s" % (type(ex).__name__, ex)}
+        except (ZeroDivisionError, OverflowError, ValueError, TypeError):
+            continue        # this valuation is outside the exactly evaluated domain: try another
         if _norm(v1) != _norm(v2):
             return {"valuation": val, "left": repr(v1), "right": repr(v2)}
         if count >= max_points:
